@@ -226,6 +226,11 @@ class SqliteQueue(SqliteDLQMixin, Queue):
 
         message.message_id = str(msg_id)
         message.attempts = attempts + 1
+        # Claim token: the row version this claim produced. reschedule() and
+        # extend_lock() only touch the row while it still carries it, so a
+        # worker whose lock lapsed (and whose message was re-claimed) can
+        # neither clear nor refresh the new holder's lock.
+        message._claim_version = version + 1  # type: ignore[attr-defined]
 
         self._pending[msg_id] = {
             "message": message,
@@ -268,9 +273,19 @@ class SqliteQueue(SqliteDLQMixin, Queue):
 
         locked_until = datetime.now(UTC) + (duration or self.lock_duration)
         conn = self._get_connection()
+        claim = getattr(message, "_claim_version", None)
+        # Only the current holder may renew, and only a lock that has not
+        # lapsed yet: once it lapsed another poller may already have SELECTed
+        # the row, and its claim (same version) would succeed as well.
+        guard = (
+            " AND version = :claim AND locked_until IS NOT NULL"
+            " AND datetime(locked_until) >= datetime('now', 'utc')"
+            if claim is not None
+            else ""
+        )
         cursor = conn.execute(
-            f"UPDATE {self.table_name} SET locked_until = :locked_until WHERE id = :id",
-            {"locked_until": locked_until.isoformat(), "id": msg_id},
+            f"UPDATE {self.table_name} SET locked_until = :locked_until WHERE id = :id{guard}",
+            {"locked_until": locked_until.isoformat(), "id": msg_id, "claim": claim},
         )
         conn.commit()
         return cursor.rowcount == 1
@@ -298,14 +313,16 @@ class SqliteQueue(SqliteDLQMixin, Queue):
         deliver_at = datetime.now(UTC) + delay
         conn = self._get_connection()
 
+        claim = getattr(message, "_claim_version", None)
+        guard = " AND version = :claim" if claim is not None else ""
         conn.execute(
             f"""
             UPDATE {self.table_name}
             SET deliver_at = :deliver_at,
                 locked_until = NULL
-            WHERE id = :id
+            WHERE id = :id{guard}
             """,
-            {"id": msg_id, "deliver_at": deliver_at.isoformat()},
+            {"id": msg_id, "deliver_at": deliver_at.isoformat(), "claim": claim},
         )
         conn.commit()
 
